@@ -275,6 +275,8 @@ class TermEval:
             if isinstance(s.value, ast.Call):
                 return [p]           # e.g. super().__init__()
             return [p]
+        if isinstance(s, (ast.Assert, ast.Pass, ast.Global, ast.Nonlocal, ast.Import, ast.ImportFrom)):
+            return [p]               # says nothing about the text that is built
         raise _Unsupported("statement %s in %s" % (type(s).__name__, self.fi.qual))
 
     def _target_key(self, t: ast.AST) -> Optional[str]:
@@ -577,6 +579,18 @@ class TermEval:
                     v = kw[fld]
                 parts += self._to_parts(v, p)
             return SStr(parts)
+        # sep.join(<piece> for k in <iterable>): the comprehension form of an accumulation loop
+        if isinstance(f, ast.Attribute) and f.attr == "join" and len(e.args) == 1 and isinstance(e.args[0], (ast.GeneratorExp, ast.ListComp)) \
+                and len(e.args[0].generators) == 1 and not e.args[0].generators[0].ifs:
+            sep = self._expr(f.value, p)
+            if isinstance(sep, SStr) and all(isinstance(x, Lit) for x in sep.parts):
+                gen = e.args[0].generators[0]
+                q0 = p.fork()
+                it = self._expr(gen.iter, q0)
+                if isinstance(gen.target, ast.Name):
+                    q0.env[gen.target.id] = SObj(it.role + "[]", it.domain) if isinstance(it, SList) else SOpq("number", gen.target.id)
+                body = self._to_parts(self._expr(e.args[0].elt, q0), q0)
+                return SStr((Rep(body, "".join(x.text for x in sep.parts)),))
         if isinstance(f, ast.Attribute) and f.attr in ("term", "arrayed_term"):
             recv = self._expr(f.value, p)
             targ = e.args[-1] if e.args else None
